@@ -1,7 +1,7 @@
 //! Transform the parsed AST into a "materialized" AST, by executing functions and
 //! replacing variables. The materialized AST is "flat", in the sense that it
 //! contains no query-specific logic.
-use std::collections::HashMap;
+use std::collections::{HashMap, HashSet};
 use std::iter::zip;
 
 use enum_as_inner::EnumAsInner;
@@ -32,6 +32,12 @@ pub struct AnchorContext {
 
     pub col_name: NameGenerator,
     pub table_name: NameGenerator,
+
+    /// Lower-cased names of every table and relation alias the user wrote.
+    /// Generated table names stay clear of them regardless of letter case,
+    /// because many engines (SQLite, MySQL, SQL Server) match identifiers
+    /// case-insensitively even when they are quoted.
+    pub reserved_table_names: HashSet<String>,
 
     pub cid: IdGenerator<CId>,
     pub tid: IdGenerator<TId>,
@@ -122,6 +128,17 @@ pub enum ColumnDecl {
 }
 
 impl AnchorContext {
+    /// A new `table_N` name that does not clash, in any letter case, with a
+    /// name the user wrote.
+    pub fn gen_table_name(&mut self) -> String {
+        loop {
+            let name = self.table_name.gen();
+            if !self.reserved_table_names.contains(&name.to_lowercase()) {
+                return name;
+            }
+        }
+    }
+
     /// Returns a new AnchorContext object based on a Query object. This method
     /// generates new IDs and names for tables and columns as needed.
     pub fn of(query: RelationalQuery) -> Result<(Self, Relation)> {
